@@ -18,6 +18,9 @@ TARGETS["deque"] = dict(src="scenarios/deque.cpp", defs=[])
 
 TARGETS["seqlock"] = dict(src="scenarios/seqlock.cpp", defs=[])
 
+TARGETS["leftright"] = dict(src="scenarios/leftright.cpp", defs=[])
+
+SIMPLE_FAMILIES = {"deque": ["C12"], "seqlock": ["C14"], "leftright": ["C13"]}
 GENERIC_KINDS = {"use-after-free", "wild-access", "double-free", "bad-free", "crash", "hang", "deadlock", "watchdog"}
 RACE_KINDS = {"race", "race-free", "race-free-vs-atomic"}
 
@@ -37,9 +40,8 @@ def attribute(scenario, config, kind, primary, weak):
     First entry = primary property."""
     props = []
     fam = scenario.split(".")[0]
-    if kind in RACE_KINDS:
-        props = ["C03"]
-    elif fam == "queues":
+    race = kind in RACE_KINDS
+    if fam == "queues":
         lin = queue_lin_prop(config)
         if kind.startswith("elem-"):
             props = ["C07"]
@@ -47,23 +49,23 @@ def attribute(scenario, config, kind, primary, weak):
             props = [lin]
         elif kind in ("solo-bound", "solo-blocked"):
             props = ["C16"]
-        else:  # crashes, heap errors, hangs: the history is broken for every property this scenario serves
+        else:  # crashes, heap errors, hangs, races: the history is broken for every property this scenario serves
             props = [lin, "C07"]
-    elif fam == "deque":
-        props = ["C16"] if kind in ("solo-bound", "solo-blocked") else ["C12"]
-    elif fam == "seqlock":
-        props = ["C16"] if kind in ("solo-bound", "solo-blocked") else ["C14"]
+    elif fam in SIMPLE_FAMILIES:
+        props = ["C16"] if kind in ("solo-bound", "solo-blocked") else list(SIMPLE_FAMILIES[fam])
     elif fam == "reclaim":
         if kind in ("solo-bound", "solo-blocked"):
             props = ["C16"]
-        elif primary and kind not in GENERIC_KINDS:
+        elif primary and kind not in GENERIC_KINDS and not race:
             props = [primary]
         elif kind in ("double-free", "bad-free"):
             props = ["C02", "C01"]
-        else:  # use-after-free, crash, hang ... : the reclamation protocol itself is broken
+        else:  # use-after-free, crash, hang, race with a free ... : the reclamation protocol itself is broken
             props = ["C01", "C02", "C15", "C17"]
     else:
         props = [primary] if primary else []
+    if race:  # a data race refutes C03 first of all, and undermines the scenario's own property
+        props = ["C03"] + [p for p in props if p != "C03"]
     if weak and "C03" not in props:
         props.append("C03")
     return props
@@ -299,11 +301,21 @@ PLANS["C14"] = plan_simple(
     "value and every value handed to an update functor is decoded byte by byte against the pattern of the stored values; the history is judged by a WGL "
     "search against an atomic register (update = atomic read-modify-write)", {"loads_overlapping_writes": 1000})
 
+PLANS["C13"] = plan_simple(
+    "C13", "leftright", r".", 16000, 240000,
+    "each evaluation = 1-2 writers (update = set both fields of the instance to a unique id, in two steps with a preemption point in between) and 1-3 "
+    "readers, <= 5 operations each, under one seeded schedule (every seq_cst operation, mutex operation and yield is a scheduling point); functor "
+    "overlap monitor per instance address, per-instance update logs, WGL search against an atomic register", {"reads_between_switch_and_second_apply": 500}, chunks=16)
+
 # ---------------------------------------------------------------------------------------------------- manifest metadata
 NOT_YET = {}
 _LEVEL_NOTE = ("Trusted base: the xrt runtime (scheduler, vector clocks, heap shadow) and the sequential models in monitors/; gcc 12 -O1 "
                "TSan-instrumented build of the header-only library from /repo's working tree; executions explored = seeded sample, not all schedules.")
 META = {
+    "C13": dict(design_ref="DESIGN.md 5/C13", technique="runtime monitoring: functor overlap monitor on instance addresses + per-instance update log + WGL linearizability oracle (register) + race detector on the instances' plain fields",
+                level_text="Readers arriving between the writer's instance switch and its version toggle and back-to-back updates are produced by the scheduler; no read functor "
+                           "may run on an instance while an update functor modifies it, both instances receive every update exactly once in the same order, reads are linearizable.",
+                level_note=_LEVEL_NOTE),
     "C14": dict(design_ref="DESIGN.md 5/C14", technique="runtime monitoring: byte-pattern oracle over all sizeof(T) bytes of every loaded value + WGL linearizability oracle (register / read-modify-write)",
                 level_text="11 element type / slot-count combinations including sizes and alignments below a word; every load result is checked bit for bit, histories are "
                            "decided exactly against an atomic register.",
